@@ -164,6 +164,10 @@ def judge(res, results):
         res.count(('climbing ' if cl else 'inside ') + c.entry)
         res.count('kind ' + str(c.kind))
         allowed = link_target(c.tree, tb)      # the property's exception: what a link placed inside the root by its owner points to
+        if allowed is None and c.entry.startswith('aexec') and not tb.startswith(b'/') and b'/' in tb:
+            # called directly (no origin-form gate) the handler reads `http://localhost` + target: everything before the first slash
+            # is part of the host name, the path that is looked up starts there - `..//out.lnk` is the owner's link /out.lnk
+            allowed = link_target(c.tree, tb[tb.index(b'/'):])
         # a file link with a climbing target asked for through a shallower directory link: open finding on the pinned tree (signature of its own)
         suffix = ':dir-link-textual' if c.kind == 'dirlink-textual' else ''
         leaked = False
